@@ -327,6 +327,19 @@ SCHEMAS = [
      "required": ["req"]},
     {"definitions": {"N": {"type": ["string", "null"]}}, "type": "object", "title": "M",
      "properties": {"p": {"anyOf": [{"$ref": "#/definitions/N"}]}, "q": {"anyOf": [{"type": ["string", "null"]}, {"anyOf": [{"type": "integer"}, {"type": "null"}]}]}}},
+    # required and non-required nullable containers of nullable elements; class names that contain "None" / begin with "Optional"
+    {"definitions": {"OptionalExtras": {"type": "object", "properties": {"x": {"type": "integer"}}}, "NoneLike": {"type": "object", "properties": {"y": {"type": "integer"}}},
+                     "Unions": {"type": "string", "enum": ["a", "b"]}},
+     "type": "object", "title": "M",
+     "properties": {"tags": {"type": ["array", "null"], "items": {"type": ["string", "null"]}},
+                    "matrix": {"type": ["array", "null"], "items": {"type": "array", "items": {"type": ["integer", "null"]}}},
+                    "m": {"type": ["object", "null"], "additionalProperties": {"type": ["number", "null"]}},
+                    "opt_tags": {"type": ["array", "null"], "items": {"type": ["string", "null"]}},
+                    "nonePolicy": {"type": ["string", "null"], "enum": ["x", "y"]},
+                    "optional_extras": {"$ref": "#/definitions/OptionalExtras"}, "req_extras": {"$ref": "#/definitions/OptionalExtras"},
+                    "none_like": {"$ref": "#/definitions/NoneLike"}, "none_likes": {"type": "array", "items": {"$ref": "#/definitions/NoneLike"}},
+                    "unions": {"anyOf": [{"$ref": "#/definitions/Unions"}, {"type": "null"}]}},
+     "required": ["tags", "matrix", "m", "nonePolicy", "req_extras"]},
 ]
 
 
